@@ -159,7 +159,11 @@ func replyBrief(r qres) string {
 	if has {
 		e = fmt.Sprint(code)
 	}
-	return fmt.Sprintf("rcode=%d an=%d ad=%s ede=%s pkts=%d ms=%d", r.Msg.Rcode, len(r.Msg.Answer), vlib.B(r.Msg.AuthenticatedData), e, r.packets(), r.Elapsed.Milliseconds())
+	ops := ""
+	if r.Snap != nil {
+		ops = fmt.Sprintf(" sigops=%d", r.Snap.SignatureChecks)
+	}
+	return fmt.Sprintf("rcode=%d an=%d ad=%s ede=%s pkts=%d ms=%d%s", r.Msg.Rcode, len(r.Msg.Answer), vlib.B(r.Msg.AuthenticatedData), e, r.packets(), r.Elapsed.Milliseconds(), ops)
 }
 
 // l3 query <edns> <do> <own>
@@ -202,6 +206,17 @@ func l3Query(f []string) vlib.Res {
 	if c.fam == "deep" && c.topo.Answerable && r.Touched > c.main.P.Cfg.Maxdepth {
 		return vlib.Res{Impl: replyBrief(r), Oracle: fmt.Sprintf("FAIL sig=l3/query/referral-chain-past-maxdepth servers=%d maxdepth=%d",
 			r.Touched, c.main.P.Cfg.Maxdepth), Tags: tags}
+	}
+	// many signatures × colliding key tags: in enforce mode the tree's public-key operations are
+	// bounded by what its RRsets may cost — the honest zones' RRsets (root DNSKEY, test DS, test
+	// DNSKEY, sig.test DS: one signature, one key each; counted twice for slack) plus the per-RRset
+	// ceiling for each of the two padded RRsets (sig.test DNSKEY, the answer)
+	if c.topo.Collide > 0 && r.Snap != nil && c.main.Policy.Mode == middleware.RecursionWorkEnforce {
+		capRRset := policyCaps(c.main.Policy)[3]
+		if bound := 8 + 2*capRRset; r.Snap.SignatureChecks > bound {
+			return vlib.Res{Impl: replyBrief(r), Oracle: fmt.Sprintf("FAIL sig=l3/query/dnssec-ops-past-rrset-budget signature-ops=%d bound=%d (per-RRset cap %d, %d bad RRSIGs x %d same-tag keys)",
+				r.Snap.SignatureChecks, bound, capRRset, c.topo.Pad, c.topo.Collide), Tags: tags}
+		}
 	}
 	if c.ref != nil {
 		// shadow: only counted, the reply is what firewall-off gives on the same world
